@@ -189,6 +189,15 @@ func (w *Watcher) Run(ctx context.Context) error {
 		return fmt.Errorf("creating block poll connector failed: %w", err)
 	}
 
+	// The block poller of a new connector starts switched off and is switched on by the next log.
+	// Messages that were already pending when the previous Run returned (the supervisor restarts
+	// Run on the same Watcher) must not wait for that: they need the heads now.
+	w.pendingMu.Lock()
+	if len(w.pending) > 0 {
+		w.ethConn.EnablePoller()
+	}
+	w.pendingMu.Unlock()
+
 	// Subscribe to new message publications. We don't use a timeout here because the LogPollConnector
 	// will keep running. Other connectors will use a timeout internally if appropriate.
 	messageC := make(chan *abi.AbiLogMessagePublished, 2)
